@@ -322,6 +322,91 @@ pub fn run(ctx: &Ctx) -> i32 {
         }
         ctx.family("to-indexed-all", total, "to_indexed_image on EVERY image of shape 1x1, 2x1, 1x2, 3x1, 2x2, 4x1, 1x4 over a 6-pixel alphabet (two palette colours opaque, the first with alpha 254 and 0, the second with alpha 1, an absent colour), two option sets; result must be the dimensions and lookup() of each pixel in row-major order (lookup itself is decided by the `mapper` family)", true);
     }
+    // ---- images whose backing buffer is larger than 4*w*h bytes (RgbaImage::from_raw allows it)
+    if ctx.wants_family("oversized-backing") {
+        let mut f = gen::file(1, 1, &Fmt::Rgba, &[1]);
+        f.frames[0].push(new_palette(0, (0..32u32).map(|i| pal_entry([i as u8 * 3 + 1, 200 - i as u8, i as u8 * 7, 255], None)).collect()));
+        let Loaded::Ok(file) = load(&f.encode()) else { return 2 };
+        let pal = file.palette().unwrap();
+        let mapper = PaletteMapper::new(pal, MappingOptions { failure: 31, transparent: Some(30) });
+        let m = if thorough { 12u32 } else { 6 };
+        let mut cases: Vec<(u32, u32, usize)> = Vec::new();
+        for w in 1..=m {
+            for h in 1..=m {
+                for extra in [1usize, 3, 4, 5, 4 * w as usize - 1, 4 * w as usize, 4 * w as usize + 4, 4 * (w as usize) * (h as usize), 4096] {
+                    cases.push((w, h, extra));
+                }
+            }
+        }
+        cases.sort();
+        cases.dedup();
+        ctx.family("oversized-backing", cases.len() as u64 * 2, &format!("extrude_border and to_indexed_image on every (w,h) in [1,{}]^2 built with RgbaImage::from_raw over a buffer that is 1, 3, 4, 5, 4w-1, 4w, 4w+4, 4wh or 4096 bytes longer than 4wh (surplus bytes 0xEE): only the first 4wh bytes are the image", m), true);
+        cases.par_iter().for_each(|(w, h, extra)| {
+            let case = || format!("{}x{} surplus={}", w, h, extra);
+            if !ctx.wants("oversized-backing", &case) {
+                return;
+            }
+            let n = (*w * *h) as usize;
+            // extrude: position codes
+            let mut buf: Vec<u8> = Vec::with_capacity(4 * n + extra);
+            for y in 0..*h {
+                for x in 0..*w {
+                    buf.extend_from_slice(&code(x, y));
+                }
+            }
+            buf.extend(std::iter::repeat(0xEE).take(*extra));
+            let img = RgbaImage::from_raw(*w, *h, buf).expect("buffer is large enough");
+            let mut p = Vec::new();
+            let out = guarded(&mut p, || "extrude_border".into(), || extrude_border(img));
+            ctx.eval(((*w + 2) * (*h + 2)) as u64);
+            match out {
+                None => ctx.violation(Violation { family: "oversized-backing".into(), case: case(), sig: format!("panic:{}", sig_of(&p[0].1)), detail: format!("extrude_border panicked: {}", p[0].1), bytes: None, extra: json!({}) }),
+                Some(out) => {
+                    ctx.outcome(hash64(&(out.dimensions(), "extrude")));
+                    let mut bad = None;
+                    if out.dimensions() != (w + 2, h + 2) {
+                        bad = Some(format!("result is {:?}, expected {}x{}", out.dimensions(), w + 2, h + 2));
+                    } else {
+                        'o: for y in 0..h + 2 {
+                            for x in 0..w + 2 {
+                                let sx = (x as i64 - 1).clamp(0, *w as i64 - 1) as u32;
+                                let sy = (y as i64 - 1).clamp(0, *h as i64 - 1) as u32;
+                                if out.get_pixel(x, y).0 != code(sx, sy) {
+                                    bad = Some(format!("output pixel ({},{}) is not input pixel ({},{})", x, y, sx, sy));
+                                    break 'o;
+                                }
+                            }
+                        }
+                    }
+                    if let Some(b) = bad {
+                        ctx.violation(Violation { family: "oversized-backing".into(), case: case(), sig: "extrude".into(), detail: b, bytes: None, extra: json!({}) });
+                    }
+                }
+            }
+            // to_indexed_image: palette colours per position
+            let mut buf: Vec<u8> = Vec::with_capacity(4 * n + extra);
+            let mut expect = Vec::new();
+            for i in 0..n {
+                let k = (i % 29) as u8 + 1;
+                buf.extend_from_slice(&[k * 3 + 1, 200 - k, k * 7, 255]);
+                expect.push(k);
+            }
+            buf.extend(std::iter::repeat(0xEE).take(*extra));
+            let img = RgbaImage::from_raw(*w, *h, buf).expect("buffer is large enough");
+            let mut p = Vec::new();
+            let r = guarded(&mut p, || "to_indexed_image".into(), || to_indexed_image(img, &mapper));
+            ctx.eval(n as u64);
+            match r {
+                None => ctx.violation(Violation { family: "oversized-backing".into(), case: case(), sig: format!("panic:{}", sig_of(&p[0].1)), detail: format!("to_indexed_image panicked: {}", p[0].1), bytes: None, extra: json!({}) }),
+                Some(((rw, rh), data)) => {
+                    ctx.outcome(hash64(&(rw, rh, "indexed")));
+                    if (rw, rh) != (*w, *h) || data != expect {
+                        ctx.violation(Violation { family: "oversized-backing".into(), case: case(), sig: "to_indexed_image".into(), detail: format!("got {:?} and {} indices {:?}, expected {:?} and {} indices {:?}", (rw, rh), data.len(), &data[..data.len().min(12)], (w, h), expect.len(), &expect[..expect.len().min(12)]), bytes: None, extra: json!({}) });
+                    }
+                }
+            }
+        });
+    }
     ctx.note("built with asefile's `utils` feature on; the repository's own suite runs with it off (MANIFEST.hooks.baseline_off_cmd)");
     ctx.finish()
 }
